@@ -13,7 +13,7 @@ that the palette indices of the log scalers can be compared exactly, and `scale`
 against an all-native evaluation.  `math.Pow` (heatmap legend of a
 log scale) is not ported: both sides replace that one line by `~`.
 
-Ops: `scale`, `barw`, `stack`, `cell`, `strlen`, `fmtseq`, `hdr`, `tablew`, `render histo|histo2|bars|table|heat|spark|reduce`.
+Ops: `scale`, `barw`, `stack`, `cell`, `strlen`, `fmtseq`, `hdr`, `tablew`, `histow`, `render histo|histo2|bars|table|heat|spark|reduce`.
 -/
 namespace Rare.Drv.C14
 open Rare Rare.C14 Rare.C20 Rare.Proto
@@ -303,7 +303,27 @@ def parseStep (s : String) : Option TableOp :=
       pure (TableOp.row rn cs)
   | _ => none
 
+/-- a step of a `histow` script: `<line>:<hex key>:<val>` or `T:<total>` -/
+def parseHistoStep (s : String) : Option HistoOp :=
+  match s.splitOn ":" with
+  | ["T", t] => (t.toInt?).map HistoOp.total
+  | [n, key, v] => do
+    let n ← n.toNat?
+    let k ← Hex.dec key
+    let v ← v.toInt?
+    pure (HistoOp.line n k v)
+  | _ => none
+
 def handle : List String → String
+  | ["histow", col, uni, sc, fm, bar, pct, maxLines, script] =>
+    match bit col, bit uni, scaler? sc, bit bar, bit pct, maxLines.toInt?, (if script = "." then some [] else (script.splitOn "/").mapM parseHistoStep) with
+    | some c, some u, some k, some b, some p, some ml, some steps =>
+      withFmt fm fun f => answer (do
+        let h ← Histo.new ml b p k f
+        let (h, vt) ← Histo.runOps A { color := c, unicode := u } (h, VirtualTerm.new) steps
+        let vt ← h.writeFooter vt 0 (ascii "F")
+        pure (okLines vt))
+    | _, _, _, _, _, _, _ => "bad-args"
   | ["scale", sc, v, mn, mx] =>
     match scaler? sc, v.toInt?, mn.toInt?, mx.toInt? with
     | some k, some v, some mn, some mx =>
